@@ -247,7 +247,7 @@ def prove_instance(c, inst, tier="quick", seed=0, lib_factory=Lib):
     try:
         for t in c.targets:
             obj = resolve_target(t)
-            if not S.is_repo_function(obj) and not isinstance(obj, type) and not isinstance(obj, (dict, tuple)):
+            if not S.is_repo_function(obj) and not isinstance(obj, type) and not isinstance(obj, (dict, tuple, str)):
                 raise Unsupported(f"contract target {t} is not a repository function/class/table")
         kits = []
         used_summaries = set()
